@@ -1,6 +1,8 @@
 """C05 - every distribution's cdf / icdf / pdf follow the documented formula and each other."""
 import math
 
+import warnings
+
 import numpy as np
 
 from .. import distmon
@@ -263,6 +265,32 @@ def run_case(case, ctx):
                 got2 = getattr(base, meth)(arg, *([None] * k), **{last: p[last]}) if k < len(names) - 0 and last not in names[:k] else None
                 if got2 is not None:
                     ctx.check("rel.explicit-eq-instance", _nan_equal(got2, getattr(_mk(fam, mixed), meth)(arg)), f"{fam}.{meth}: {k} positional None placeholder(s) and {last} by keyword != instance built with it", family=fam, parameter=last, method=meth, value=p[last], other=other)
+
+    # ---- integer-typed explicit parameter values (Python int, numpy integer, integer array) == the same value as float ----
+    if fam != "lnnf":
+        for n in names:
+            vi = int(round(other[n])) if S.KIND[fam][n] != "pos" else max(1, int(round(other[n])))
+            if fam == "vonmises" and n == "mu":
+                vi = int(np.clip(vi, -3, 3))
+            alt = dict(other)
+            alt[n] = float(vi)
+            if vi == 1:
+                vi, alt[n] = 2, 2.0  # (1 is the value at which int and float arithmetic agree most often)
+            if not R.admissible(fam, alt):
+                continue
+            with np.errstate(all="ignore"):
+                xa = np.asarray(R.icdf(fam, np.array([0.2, 0.5, 0.8]), **alt), float)
+            if not np.all(np.isfinite(xa)):
+                continue
+            inst = _mk(fam, alt)
+            for meth, arg in (("cdf", xa), ("pdf", xa), ("icdf", np.array([0.2, 0.5, 0.8]))):
+                want = np.asarray(getattr(inst, meth)(arg), float)
+                for tname, tv in (("int", int(vi)), ("np.int64", np.int64(vi)), ("int-array", np.full(3, vi, dtype=np.int64))):
+                    with np.errstate(all="ignore"), warnings.catch_warnings():
+                        warnings.simplefilter("ignore")
+                        got = np.asarray(getattr(base, meth)(arg, **{n: tv}), float)
+                    ok_ = got.shape == want.shape and bool(np.allclose(got, want, rtol=1e-12, atol=0, equal_nan=False))
+                    ctx.check("rel.explicit-eq-instance", ok_, f"{fam}.{meth}: explicit {n} given as {tname} != the same value as float", family=fam, parameter=n, value=vi, got=got, want=want)
 
     # ---- history: evaluate, change the parameters of the SAME object (assignment, then a fit), evaluate again ----
     hist = _mk(fam, p)
